@@ -110,7 +110,7 @@ let run_path id toks =
   | sep :: asg :: ops ->
     let sep = byte_of_hex sep and asg = byte_of_hex asg in
     let p = ref (path_init sep asg) in
-    let a = ref { aelems = []; apost = []; abin = false; asep = sep; aassign = asg } in
+    let a = ref { aelems = []; apost = []; abin = false; asep = sep; aassign = asg; anull = true } in
     let mt = Buffer.create 256 and st = Buffer.create 256 in
     let step o isset =
       let (p', r) = pstep !p o in
